@@ -3,5 +3,6 @@ CONSTANTS
   MaxMembers = 4
   MaxGhosts = 0
   AllItems = FALSE
+  TNs = {FALSE, TRUE}
 INVARIANTS Emit NoClash
 CHECK_DEADLOCK FALSE
